@@ -2,7 +2,7 @@
 """(re)generate MANIFEST.json from the table below (run by hand)."""
 import json, os
 V = os.path.dirname(os.path.dirname(os.path.abspath(__file__)))
-TECH = "Lean 4 theorems about a hand-written executable model; tie to the code: (1) translator tools/rs2lean.py regenerates Lean definitions from the Rust text of 26 views on every run and kernel-checked theorems SF.GenEq.<View>.tie prove them equal to the model on every input, (2) differential correspondence for all 38 views (Rust harness vs Lean driver, f64 bit-level and exact rational); + exact relational oracles on the implementation"
+TECH = "Lean 4 theorems about a hand-written executable model; tie to the code: (1) translator tools/rs2lean.py regenerates Lean definitions from the Rust text of 27 of the 38 views on every run and kernel-checked theorems SF.GenEq.<View>.tie prove them equal to the model on every input, (2) differential correspondence for all 38 views (Rust harness vs Lean driver, f64 bit-level and exact rational); + exact relational oracles on the implementation"
 P = {
  "C01": ("proof", "wrap_trace (ANY inner view, ANY core, any finite input): the chain's answers = the core over Echo fed exactly what the stand-alone inner view reported; wrap_run_fst (every raw input reaches the inner view once, in order); mapV/binop lemmas (value iff both children); denote_* for every tree of the catalogue. Tie: chain-vs-decomposition runs bitwise at f64 on the implementation (all wrappers x inner views incl. relapsing probes, domain-mapping inner views under LnReturn/Drawdown), binop relations, tree pattern correspondence.", "A4 C01"),
  "C02": ("proof", "state machine = batch statistic over exactly lastN N for EVERY view of the statement (Sma, Cumulative, Min, Max, WelfordOnline mean/variance/last, Vst, Vsct, HLNormalizer, Roc, BinaryEntropy), every N and every history, by invariant over the operation list. Tie: exact spec-equality runs incl. exhaustive small scope (all streams of length 6 over a 3-letter alphabet, N=1,2,3), long histories 10^3..10^5 vs short suffix, outlier-leaves-window (f64), tiny/huge/level units.", "A4 C02"),
@@ -33,7 +33,7 @@ for pid, (cat, text, ref) in sorted(P.items()):
         "replay_cmd_template": "./check replay {path}",
         "engine": "lean-model-correspondence",
         "level_claimed": {"category": cat, "text": text, "design_ref": "DESIGN.md " + ref},
-        "level_note": "Trusted: Lean 4.33 kernel; axioms propext, Classical.choice, Quot.sound only (audited per theorem, no sorry/native_decide); Mathlib; the hand-written model SF/Model tied to /repo (a) for 26 of the 38 views by the translator tools/rs2lean.py (trusted: its reading of the Rust subset -- VecDeque/Vec as lists, usize as checked Nat, the std functions of SF/GenPrelude.lean) plus kernel-checked equality theorems SF.GenEq.*.tie re-checked on every run, (b) for all views by a sampled differential correspondence (Rust harness, exact scalar Q with f64-bridged transcendentals, Lean compiler/runtime, libm); statements/specs as a reading of properties.jsonl. Modelled not verified: VecDeque/Vec as lists, usize as Nat, f64 by Lean Float, derive(Clone) as copy, the allocator. Parts of the statement not yet covered by a theorem are decided by exact runs of the implementation against executable specs and are listed in DESIGN.md.",
+        "level_note": "Trusted: Lean 4.33 kernel; axioms propext, Classical.choice, Quot.sound only (audited per theorem, no sorry/native_decide); Mathlib; the hand-written model SF/Model tied to /repo (a) for 27 of the 38 views by the translator tools/rs2lean.py (trusted: its reading of the Rust subset -- VecDeque/Vec as lists, usize as checked Nat, the std functions of SF/GenPrelude.lean) plus kernel-checked equality theorems SF.GenEq.*.tie re-checked on every run, (b) for all views by a sampled differential correspondence (Rust harness, exact scalar Q with f64-bridged transcendentals, Lean compiler/runtime, libm); statements/specs as a reading of properties.jsonl. Modelled not verified: VecDeque/Vec as lists, usize as Nat, f64 by Lean Float, derive(Clone) as copy, the allocator. Parts of the statement not yet covered by a theorem are decided by exact runs of the implementation against executable specs and are listed in DESIGN.md.",
         "technique": TECH,
     })
 m = {
